@@ -20,7 +20,7 @@ CONSTANTS NRemotes,     \* remotes 1..NRemotes
           Keys,         \* map keys
           Advances,     \* set of clock advances (ms) the environment may make ({} = the clock is never advanced)
           Burst,        \* TRUE: sends may be issued back to back without letting the agent settle
-          Faults        \* subset of {"drop", "dropread", "unknown", "restart", "kill"}
+          Faults        \* subset of {"drop", "dropread", "unknown", "restart", "kill", "badcmd", "rich"}
 
 VARIABLES script, att, gone, nv, restarts, kind
 vars == <<script, att, gone, nv, restarts, kind>>
@@ -47,6 +47,13 @@ Unknown == /\ "unknown" \in Faults
                 /\ Emit([k |-> "send", r |-> r, lane |-> "nolane", op |-> op, m |-> "raw", v |-> nv])
                 /\ UNCHANGED <<att, gone, restarts>> /\ nv' = nv + 1
 
+\* a command whose body the lane cannot decode (a text for a value lane, an unknown map message for a map lane):
+\* the envelope is dropped, nothing else may happen
+BadCmd == /\ "badcmd" \in Faults
+          /\ \E r \in Live : \E l \in VLanes \cup MLanes :
+                /\ Emit([k |-> "send", r |-> r, lane |-> l, op |-> "cmd", m |-> (IF l \in VLanes THEN "badv" ELSE "badm")])
+                /\ UNCHANGED <<att, gone, nv, restarts>>
+
 SetCmd == \E r \in Live : \E l \in VLanes : \E ns \in NS :
             /\ Emit([k |-> "send", r |-> r, lane |-> l, op |-> "cmd", m |-> "set", v |-> nv, nosettle |-> ns])
             /\ nv' = nv + 1 /\ UNCHANGED <<att, gone, restarts>>
@@ -65,17 +72,38 @@ MapCmd == \E r \in Live : \E l \in MLanes : \E ns \in NS :
                  /\ UNCHANGED <<att, gone, nv, restarts>>
 
 \* an instruction program for the agent's own handlers (one to three instructions)
-Instr(n) ==
+\* "rich" \in Faults: the handlers also use the other ways of changing a lane (transform_value, transform_entry,
+\* replace_map) and run instructions from timers (later: needs clock advances) and suspended futures (susp)
+Basic(n) ==
+    {[i |-> "set", lane |-> l, v |-> n] : l \in VLanes}
+    \cup {[i |-> "upd", lane |-> l, key |-> key, v |-> n] : l \in MLanes, key \in Keys}
+    \cup {[i |-> "rem", lane |-> l, key |-> key] : l \in MLanes, key \in Keys}
+    \cup (IF SLanes = {} THEN {} ELSE {[i |-> "sup", v |-> n]})
+RichInstr(n) ==
+    IF "rich" \notin Faults THEN {}
+    ELSE {[i |-> "tv", lane |-> l, v |-> n] : l \in VLanes}
+         \cup {[i |-> "te", lane |-> l, key |-> key, v |-> n] : l \in MLanes, key \in Keys}
+         \cup {[i |-> "ter", lane |-> l, key |-> key] : l \in MLanes, key \in Keys}
+         \cup {[i |-> "rmap", lane |-> l, key |-> key, v |-> n] : l \in MLanes, key \in Keys}
+         \cup {[i |-> "later", ms |-> ms, then |-> b] : ms \in {20, 50}, b \in Basic(n)}
+         \cup {[i |-> "susp", then |-> b] : b \in Basic(n)}
+
+Plain(n) ==
     {[i |-> "set", lane |-> l, v |-> n] : l \in VLanes}
     \cup {[i |-> "upd", lane |-> l, key |-> key, v |-> n] : l \in MLanes, key \in Keys}
     \cup {[i |-> "rem", lane |-> l, key |-> key] : l \in MLanes, key \in Keys}
     \cup {[i |-> "clr", lane |-> l] : l \in MLanes}
     \cup (IF SLanes = {} THEN {} ELSE {[i |-> "sup", v |-> n]})
     \cup {[i |-> "send", target |-> t, v |-> n] : t \in {"t1", "t2"}}
+Instr(n) == RichInstr(n) \cup Plain(n)
 
+\* (with "rich", one position of the program draws from all instructions and the others from the plain ones:
+\* the number of successors stays within what TLC's simulator accepts)
 AgentCmd == /\ UseCmd
-            /\ \E r \in Live : \E len \in 1..3 :
-                 \E a \in Instr(nv) : \E b \in Instr(nv + 1) : \E c \in Instr(nv + 2) :
+            /\ \E r \in Live : \E len \in 1..3 : \E pos \in (IF "rich" \in Faults THEN 1..3 ELSE {0}) :
+                 \E a \in (IF pos \in {0, 1} THEN Instr(nv) ELSE Plain(nv)) :
+                 \E b \in (IF pos \in {0, 2} THEN Instr(nv + 1) ELSE Plain(nv + 1)) :
+                 \E c \in (IF pos \in {0, 3} THEN Instr(nv + 2) ELSE Plain(nv + 2)) :
                    /\ Emit([k |-> "send", r |-> r, lane |-> "cmd", op |-> "cmd", m |-> "prog",
                             prog |-> SubSeq(<<a, b, c>>, 1, len), tag |-> nv, nosettle |-> (Burst /\ len = 1)])
                    /\ nv' = nv + 3 /\ UNCHANGED <<att, gone, restarts>>
@@ -103,7 +131,7 @@ Restart == /\ restarts < 2
 \* Two-stage choice so that TLC's uniform choice among successors is uniform among the *kinds*
 \* of step (with multiplicities as weights), not among their many parameterisations.
 Kinds == {"attach", "proto1", "proto2", "proto3", "set1", "set2", "map1", "map2", "map3", "agent1", "agent2",
-          "read1", "read2", "read3", "gone", "quiesce", "restart", "unknown", "adv1", "adv2", "adv3"}
+          "read1", "read2", "read3", "gone", "quiesce", "restart", "unknown", "adv1", "adv2", "adv3", "badcmd"}
 
 Can(kd) ==
     CASE kd = "attach" -> att # Remotes
@@ -117,6 +145,7 @@ Can(kd) ==
       [] kd = "restart" -> restarts < 2 /\ Faults \cap {"restart", "kill"} # {} /\ Len(script) > 3
       [] kd = "unknown" -> Live # {} /\ "unknown" \in Faults
       [] kd \in {"adv1", "adv2", "adv3"} -> Advances # {}
+      [] kd = "badcmd" -> Live # {} /\ "badcmd" \in Faults /\ VLanes \cup MLanes # {}
 
 Do(kd) ==
     CASE kd = "attach" -> Attach
@@ -130,6 +159,7 @@ Do(kd) ==
       [] kd = "restart" -> Restart
       [] kd = "unknown" -> Unknown
       [] kd \in {"adv1", "adv2", "adv3"} -> Advance
+      [] kd = "badcmd" -> BadCmd
 
 Pick == /\ kind = "none" /\ Len(script) < MaxLen
         /\ \E kd \in Kinds : Can(kd) /\ kind' = kd
